@@ -64,6 +64,25 @@ pub fn campaign(ctx: &mut Ctx, target: &'static str, section: &str, total_runs: 
         return Value::Null;
     }
     let t0 = Instant::now();
+    // the engine's watchdog looks for progress ticks; building and fuzzing are bounded by their own
+    // limits (libFuzzer -timeout per input, the wall-clock deadline below), so keep ticking
+    let done = std::sync::Arc::new(std::sync::atomic::AtomicBool::new(false));
+    let ticker = {
+        let done = done.clone();
+        std::thread::spawn(move || {
+            while !done.load(std::sync::atomic::Ordering::Relaxed) {
+                crate::engine::tick();
+                std::thread::sleep(std::time::Duration::from_millis(500));
+            }
+        })
+    };
+    let r = campaign_inner(ctx, target, section, total_runs, max_len, t0);
+    done.store(true, std::sync::atomic::Ordering::Relaxed);
+    let _ = ticker.join();
+    r
+}
+
+fn campaign_inner(ctx: &mut Ctx, target: &'static str, section: &str, total_runs: u64, max_len: u32, t0: Instant) -> Value {
     let fuzz_dir = ctx.root.join("harness/fuzz");
     let build = Command::new("cargo")
         .args(["+nightly", "fuzz", "build", target])
@@ -111,10 +130,19 @@ pub fn campaign(ctx: &mut Ctx, target: &'static str, section: &str, total_runs: 
             .arg("-rss_limit_mb=4096")
             .arg("-print_final_stats=1")
             .arg(format!("-artifact_prefix={}/", art.display()))
-            .stdout(Stdio::null())
-            .stderr(Stdio::piped());
+            .stdout(Stdio::null());
+        // libFuzzer's log goes to a file: a pipe would fill up while we poll for the exit
+        let log_path = scratch.join(format!("log{j}"));
+        match std::fs::File::create(&log_path) {
+            Ok(f) => {
+                cmd.stderr(Stdio::from(f));
+            },
+            Err(_) => {
+                cmd.stderr(Stdio::null());
+            },
+        }
         match cmd.spawn() {
-            Ok(c) => children.push((j, c, art, corpus)),
+            Ok(c) => children.push((j, c, art, corpus, log_path)),
             Err(e) => ctx.infra_errors.push(format!("cannot start {}: {e}", exe.display())),
         }
     }
@@ -122,20 +150,32 @@ pub fn campaign(ctx: &mut Ctx, target: &'static str, section: &str, total_runs: 
     let mut corpus_units = 0u64;
     let mut max_cov = 0u64;
     let mut artifacts: Vec<PathBuf> = Vec::new();
-    for (j, child, art, corpus) in children {
-        crate::engine::tick();
-        let out = child.wait_with_output();
-        crate::engine::tick();
-        if let Ok(o) = out {
-            let log = String::from_utf8_lossy(&o.stderr).to_string();
+    let deadline = Instant::now() + std::time::Duration::from_secs(3600);
+    for (j, mut child, art, corpus, log_path) in children {
+        // a hard wall-clock limit per campaign: a job that is still running then is killed and the
+        // run is inconclusive (exit 2), never a violation
+        loop {
+            match child.try_wait() {
+                Ok(Some(_)) | Err(_) => break,
+                Ok(None) if Instant::now() > deadline => {
+                    let _ = child.kill();
+                    ctx.infra_errors.push(format!("fuzz job {j} of {target} exceeded the wall-clock limit and was stopped"));
+                    break;
+                },
+                Ok(None) => std::thread::sleep(std::time::Duration::from_millis(200)),
+            }
+        }
+        let status = child.wait();
+        if let Ok(status) = status {
+            let log = std::fs::read_to_string(&log_path).unwrap_or_default();
             execs += stat(&log, "stat::number_of_executed_units:").unwrap_or(0);
             if let Some(l) = log.lines().rev().find(|l| l.contains(" cov: ")) {
                 if let Some(c) = l.split(" cov: ").nth(1).and_then(|r| r.split_whitespace().next()).and_then(|v| v.parse::<u64>().ok()) {
                     max_cov = max_cov.max(c);
                 }
             }
-            if !o.status.success() && std::fs::read_dir(&art).map(|d| d.count()).unwrap_or(0) == 0 {
-                ctx.infra_errors.push(format!("fuzz job {j} of {target} exited with {} without an artefact", o.status));
+            if !status.success() && std::fs::read_dir(&art).map(|d| d.count()).unwrap_or(0) == 0 {
+                ctx.infra_errors.push(format!("fuzz job {j} of {target} exited with {status} without an artefact"));
             }
         }
         corpus_units += std::fs::read_dir(&corpus).map(|d| d.count() as u64).unwrap_or(0);
